@@ -71,8 +71,8 @@ namespace GcpSetup
 variable {α : Type}
 
 /-- The data check `setup` applies for an objective (`none`: no check). -/
-def Objective.check [Zero α] [One α] [IntCast α] [LT α] [DecidableLT α] [DecidableEq α]
-    (floor : α → Int) : Objective → Option (DataView α → Bool)
+def Objective.check [Zero α] [One α] [IntCast α] [LT α] [DecidableLT α] [LE α] [DecidableLE α]
+    [DecidableEq α] (floor : α → Int) : Objective → Option (DataView α → Bool)
   | .gaussian | .huber => none
   | .bernoulliOdds | .bernoulliLogit => some validBinary
   | .poisson | .poissonLog => some (validNatural floor)
@@ -126,27 +126,42 @@ theorem C13_setup_binary_sparse (S : Sparse α) (hn : S.subs.Nodup)
     · exact absurd h0 (hnz v hv)
     · exact h1
 
-/-- Count data as the CODE tests them (`vals % 1 == 0`), dense: accepted exactly when every
-entry is an integer — of either sign (see `C13_setup_natural_negative_counterexample`). -/
+/-- Count data, dense: accepted exactly when every entry is a natural number (an integer that
+is not negative). -/
 theorem C13_setup_natural_dense {floor : α → Int} (hf : FloorOk floor) (T : Dense α) :
-    validNatural floor (ofDense T) = true ↔ ∀ v ∈ T.data, ∃ z : Int, v = (z : α) := by
-  simp only [validNatural, ofDense, List.all_eq_true, decide_eq_true_eq]
+    validNatural floor (ofDense T) = true ↔ ∀ v ∈ T.data, ∃ n : Nat, v = (n : α) := by
+  simp only [validNatural, ofDense, Bool.and_eq_true, List.all_eq_true, decide_eq_true_eq]
   constructor
-  · exact fun h v hv => ⟨floor v, (h v hv).symm⟩
-  · intro h v hv
-    obtain ⟨z, rfl⟩ := h v hv
-    obtain ⟨h1, h2⟩ := hf (z : α)
-    have h1' : floor (z : α) ≤ z := by exact_mod_cast h1
-    have h2' : z < floor (z : α) + 1 := by exact_mod_cast h2
-    have : floor (z : α) = z := by omega
-    rw [this]
+  · rintro ⟨h1, h2⟩ v hv
+    have hz : ((floor v : Int) : α) = v := h1 v hv
+    have hv0 : (0 : α) ≤ v := h2 v hv
+    have h0 : (0 : α) ≤ ((floor v : Int) : α) := by rw [hz]; exact hv0
+    have h0' : (0 : Int) ≤ floor v := by exact_mod_cast h0
+    have hn : (((floor v).toNat : Nat) : Int) = floor v := Int.toNat_of_nonneg h0'
+    refine ⟨(floor v).toNat, ?_⟩
+    calc v = ((floor v : Int) : α) := hz.symm
+      _ = ((((floor v).toNat : Nat) : Int) : α) := by rw [hn]
+      _ = (((floor v).toNat : Nat) : α) := Int.cast_natCast _
+  · intro h
+    constructor
+    · intro v hv
+      obtain ⟨n, rfl⟩ := h v hv
+      obtain ⟨h1, h2⟩ := hf ((n : Int) : α)
+      have h1' : floor ((n : Int) : α) ≤ (n : Int) := by exact_mod_cast h1
+      have h2' : (n : Int) < floor ((n : Int) : α) + 1 := by exact_mod_cast h2
+      have : floor ((n : Int) : α) = (n : Int) := by omega
+      have hc : ((n : Int) : α) = (n : α) := by push_cast; rfl
+      rw [← hc, this]
+    · intro v hv
+      obtain ⟨n, rfl⟩ := h v hv
+      exact Nat.cast_nonneg n
 
 /-- Count data, sparse (distinct stored subscripts): accepted exactly when every ENTRY of the
-tensor is an integer. -/
+tensor is a natural number — the same data are accepted in both representations. -/
 theorem C13_setup_natural_sparse {floor : α → Int} (hf : FloorOk floor) (S : Sparse α)
     (hn : S.subs.Nodup) (hlen : S.subs.length = S.vals.length) :
-    validNatural floor (ofSparse S) = true ↔ ∀ i, ∃ z : Int, S.get i = (z : α) := by
-  rw [sparse_forall_get_iff S hn hlen (fun v => ∃ z : Int, v = (z : α)) ⟨0, by simp⟩]
+    validNatural floor (ofSparse S) = true ↔ ∀ i, ∃ n : Nat, S.get i = (n : α) := by
+  rw [sparse_forall_get_iff S hn hlen (fun v => ∃ n : Nat, v = (n : α)) ⟨0, by simp⟩]
   exact C13_setup_natural_dense hf ⟨S.shape, S.vals⟩
 
 /-- Non-negative data, sparse (distinct stored subscripts, no stored zero): accepted exactly
@@ -160,30 +175,30 @@ theorem C13_setup_nonneg_sparse (S : Sparse α) (hn : S.subs.Nodup)
   · exact fun h v hv => (h v hv).le
   · exact fun h v hv => lt_of_le_of_ne (h v hv) (Ne.symm (hnz v hv))
 
-/-- Non-negative data, dense, as the CODE tests them (`data.data > 0`): accepted exactly when
-every entry is STRICTLY positive.  A dense non-negative tensor with an exact zero is refused
-although the same tensor in sparse form is accepted
-(`C13_setup_nonneg_dense_zero_counterexample`). -/
+/-- Non-negative data, dense: accepted exactly when every entry is ≥ 0 — with
+`C13_setup_nonneg_sparse`, the same data are accepted in both representations. -/
 theorem C13_setup_nonneg_dense (T : Dense α) :
-    validNonneg (ofDense T) = true ↔ ∀ v ∈ T.data, 0 < v := by
+    validNonneg (ofDense T) = true ↔ ∀ v ∈ T.data, 0 ≤ v := by
   simp [validNonneg, ofDense]
 
 end setup
 
-/-- The code as it is: the non-negative 2×2 tensor `[[0, 2], [1/2, 1]]` is refused for
-RAYLEIGH in dense form ("requires a non-negative tensor") and accepted in sparse form. -/
-theorem C13_setup_nonneg_dense_zero_counterexample :
+/-- The test before 083ca8e (`data.data > 0`, explicit copy): the non-negative dense tensor
+`[[0, 2], [1/2, 1]]` was refused; the code now accepts it, as it accepts its sparse form. -/
+theorem C13_setup_nonneg_dense_zero_pinned_counterexample :
+    validNonnegPinned (ofDense (⟨[2, 2], [0, 1 / 2, 2, 1]⟩ : Dense Rat)) = false ∧
     setupS Rat.floor .rayleigh (some (ofDense (⟨[2, 2], [0, 1 / 2, 2, 1]⟩ : Dense Rat))) none
-      = .error .reject ∧
+      = .ok (some 0) ∧
     setupS Rat.floor .rayleigh
       (some (ofSparse (⟨[2, 2], [[1, 0], [0, 1], [1, 1]], [1 / 2, 2, 1]⟩ : Sparse Rat))) none
       = .ok (some 0) := by decide +kernel
 
-/-- The code as it is: `valid_natural` has no sign test, a tensor with the entry −1 is
-accepted as a count tensor for POISSON. -/
-theorem C13_setup_natural_negative_counterexample :
+/-- The test before 18649ab (`vals % 1 == 0` only, explicit copy): a tensor with the entry −1
+passed as a count tensor; the code now refuses it for POISSON. -/
+theorem C13_setup_natural_negative_pinned_counterexample :
+    validNaturalPinned Rat.floor (ofDense (⟨[2, 2], [-1, 0, 2, 1]⟩ : Dense Rat)) = true ∧
     setupS Rat.floor .poisson (some (ofDense (⟨[2, 2], [-1, 0, 2, 1]⟩ : Dense Rat))) none
-      = .ok (some 0) := by decide +kernel
+      = .error .reject := by decide +kernel
 
 /-- Non-vacuity: admissible and inadmissible requests of every kind. -/
 example : setupS Rat.floor .bernoulliOdds (some (ofDense (⟨[2, 2], [0, 1, 1, 0]⟩ : Dense Rat))) none
